@@ -137,6 +137,118 @@ fn one<'s>(acc: &mut Acc, g: &G, p: &BP<'s, &'s str, Rich<'s, char>>, buf: &'s B
     }
 }
 
+/// The same case through other error types (incl. the zero-sized default) and stream inputs: the
+/// has_output / errors contract against the reference acceptance.
+fn other_types_and_kinds<'s>(acc: &mut Acc, g: &G, bufs: &'s [Buf]) {
+    use chumsky::error::{Cheap, EmptyErr};
+    let o = Opts { wrap: false, ..Opts::default() };
+    let pe = build::<&str, EmptyErr>(g, o);
+    let pc = build::<&str, Cheap>(g, o);
+    let ps = build::<StreamK, Rich<char>>(g, o);
+    for buf in bufs {
+        let m = model_of(g, &buf.chars, true);
+        if m.pathological || m.stats.ambiguous_a1 || m.stats.ambiguous_a2 || m.stats.ambiguous_a9 {
+            continue;
+        }
+        let mut judge = |acc: &mut Acc, what: &str, r: Result<RunOut, String>| {
+            acc.evaluations += 1;
+            contract(acc, g, &buf.chars, what);
+            if let Ok(r) = r {
+                acc.count("other_type_or_kind_runs", 1);
+                if r.has_output != m.out.is_some() {
+                    acc.viol(Viol::case(format!("C03: {}: has_output={} but the grammar {} the whole input", what, r.has_output, if m.out.is_some() { "matches" } else { "does not match" }), g, &buf.chars, json!({"via": what})));
+                } else if !r.has_output && r.errs.is_empty() {
+                    acc.viol(Viol::case(format!("C03: {}: neither output nor errors", what), g, &buf.chars, json!({"via": what})));
+                } else if r.has_output && m.em.is_empty() && !r.errs.is_empty() {
+                    acc.viol(Viol::case(format!("C03: {}: output with {} unexpected error(s)", what, r.errs.len()), g, &buf.chars, json!({"via": what})));
+                }
+            }
+        };
+        judge(acc, "EmptyErr parse()", guarded(|| run_parse(&pe, buf, 0, STEP_BUDGET)));
+        judge(acc, "EmptyErr check()", guarded(|| run_check(&pe, buf, 0, STEP_BUDGET)));
+        judge(acc, "Cheap check()", guarded(|| run_check(&pc, buf, 0, STEP_BUDGET)));
+        judge(acc, "Stream parse()", guarded(|| run_parse(&ps, buf, 0, STEP_BUDGET)));
+        judge(acc, "Stream check()", guarded(|| run_check(&ps, buf, 0, STEP_BUDGET)));
+    }
+}
+
+/// Inputs longer than a stream's 512-token batch: "every token was consumed by the grammar" on
+/// &str and on streams over iterators with and without a size hint.
+fn long_inputs(acc: &mut Acc) {
+    let a = || G::just('a');
+    let grammars: Vec<G> = vec![
+        G::rep(a(), 0, None, Flav::Vec),
+        G::rep(a(), 0, None, Flav::Unit),
+        G::rep(G::leaf(Op::Any), 0, None, Flav::Count),
+        G::bin(Op::Then, G::rep(a(), 1, None, Flav::Unit), G::un(Op::OrNot, G::just('b'))),
+        G::bin(Op::Then, G::rep(G::bin(Op::Or, G::just_seq("ab"), a()), 0, None, Flav::Unit), G::leaf(Op::End)),
+        G::bin(Op::Sep, a(), G::just('b')).with(|p| p.flav = Flav::Count),
+    ]
+    .into_iter()
+    .map(|g| g.numbered())
+    .collect();
+    let mut inputs: Vec<Vec<char>> = vec![];
+    for n in [511usize, 512, 513, 600, 1023, 1024, 1025, 1300] {
+        let base: Vec<char> = std::iter::repeat('a').take(n).collect();
+        inputs.push(base.clone());
+        let mut w = base.clone();
+        w.push('b');
+        inputs.push(w);
+        for at in [n - 1, 512.min(n - 1), n / 2] {
+            let mut w = base.clone();
+            w[at] = 'b';
+            inputs.push(w);
+            let mut w = base.clone();
+            w[at] = 'c';
+            inputs.push(w);
+        }
+        inputs.push((0..n).map(|i| if i % 2 == 0 { 'a' } else { 'b' }).collect());
+    }
+    let bufs: Vec<Buf> = inputs.iter().map(|w| Buf::new(w)).collect();
+    fn on<'s, I: Kind<'s>>(acc: &mut Acc, g: &G, buf: &'s Buf)
+    where
+        I::Span: Clone + 's,
+        Rich<'s, char, I::Span>: ErrK<'s, I>,
+    {
+        let m = model_of(g, &buf.chars, true);
+        if m.pathological {
+            acc.pathological += 1;
+            return;
+        }
+        let o = Opts { wrap: false, ..Opts::default() };
+        let p = build::<I, Rich<'s, char, I::Span>>(g, o);
+        for check in [false, true] {
+            acc.evaluations += 1;
+            acc.count("long_input_runs", 1);
+            let r = guarded(|| if check { run_check(&p, buf, 0, STEP_BUDGET) } else { run_parse(&p, buf, 0, STEP_BUDGET) });
+            contract(acc, g, &buf.chars[..8.min(buf.n())], "long input");
+            match r {
+                Ok(r) => {
+                    acc.nontrivial_rand.insert(hash64(format!("long|{}|{}|{}|{}", g.show(), buf.n(), I::NAME, check).as_bytes()));
+                    if r.has_output != m.out.is_some() || (!r.has_output && r.errs.is_empty()) {
+                        let shown: String = format!("<{} tokens, first non-'a' at {:?}>", buf.n(), buf.chars.iter().position(|c| *c != 'a'));
+                        acc.viol(Viol::case(
+                            format!("C03: on a {}-token input ({}) through `{}`: {}() has_output={} errors={} but the grammar {} the whole input", buf.n(), shown, I::NAME, if check { "check" } else { "parse" }, r.has_output, r.errs.len(), if m.out.is_some() { "matches" } else { "does not match" }),
+                            g,
+                            &[],
+                            json!({"kind": I::NAME, "tokens": buf.n(), "input_shape": shown}),
+                        ));
+                    }
+                }
+                Err(e) => acc.viol(Viol::case(format!("C03: long input through {}: {}", I::NAME, e), g, &[], json!({"kind": I::NAME, "tokens": buf.n()}))),
+            }
+        }
+    }
+    for g in &grammars {
+        for buf in &bufs {
+            on::<&str>(acc, g, buf);
+            on::<StreamK>(acc, g, buf);
+            on::<CountStreamK>(acc, g, buf);
+            on::<BoxedStreamK>(acc, g, buf);
+        }
+    }
+}
+
 pub fn run(cx: &RunCtx) -> i32 {
     let alpha: Vec<char> = vec!['a', 'b', 'é'];
     let max_len = cx.t(4, 5);
@@ -153,7 +265,13 @@ pub fn run(cx: &RunCtx) -> i32 {
         for buf in &bufs {
             one(acc, g, &p, buf, alpha_ref, true, buf.n() == max_len || gi % 16 == 0);
         }
+        if gi % 4 == 0 {
+            other_types_and_kinds(acc, g, &bufs);
+        }
     });
+    let mut lacc = Acc::default();
+    long_inputs(&mut lacc);
+    acc.merge(lacc);
     acc.count("enumerated_grammars", n_enum as u64);
     let n_rand = cx.t(10_000, 200_000);
     let seed = cx.seed;
@@ -173,11 +291,11 @@ pub fn run(cx: &RunCtx) -> i32 {
         cx,
         acc,
         Finish {
-            rule: format!("every grammar with <= {size} nodes over (C01 core + repetition/separator/fold + validate + recover_with(via_parser|skip_until|skip_then_retry_until)) x every input of length <= {max_len} over {{a,b,é}}: parse(), check() and lazy().parse() each compared with the reference semantics (whole-input match, prefix match); every cleanly accepted input of maximal length (and all lengths for every 16th grammar) is extended by each letter and re-parsed; every ParseResult is run through the accessor-consistency assertions; plus {n_rand} random grammars x 4 random inputs; non-trivial = the grammar matches a prefix of a non-empty input"),
+            rule: format!("every grammar with <= {size} nodes over (C01 core + repetition/separator/fold + validate + recover_with(via_parser|skip_until|skip_then_retry_until)) x every input of length <= {max_len} over {{a,b,é}}: parse(), check() and lazy().parse() each compared with the reference semantics (whole-input match, prefix match); every cleanly accepted input of maximal length (and all lengths for every 16th grammar) is extended by each letter and re-parsed; every ParseResult is run through the accessor-consistency assertions; every 4th grammar also with EmptyErr (parse and check), Cheap (check) and on a Stream input; 6 repetition grammars on inputs of 511..1301 tokens (all 'a', with a 'b' or 'c' at the end / at the 512-token batch boundary / in the middle, alternating) on &str, Stream (exact size hint), Stream over an iterator without size hint and a boxed Stream, parse and check; plus {n_rand} random grammars x 4 random inputs; non-trivial = the grammar matches a prefix of a non-empty input"),
             exhaustive: false,
             exhaustive_note: format!("grammars <= {size} nodes x inputs <= {max_len}: complete"),
             assumptions: vec!["reference semantics decides 'matches the entire input'".into(), "A1/A2/A9 cases counted as ambiguous".into()],
-            require: vec![("clean_accepts".into(), 100), ("proper_prefix_matches".into(), 100), ("extensions_checked".into(), 100), ("lazy_prefix_accepts".into(), 100), ("accepts_with_errors".into(), 10)],
+            require: vec![("other_type_or_kind_runs".into(), 1000), ("long_input_runs".into(), 1000), ("clean_accepts".into(), 100), ("proper_prefix_matches".into(), 100), ("extensions_checked".into(), 100), ("lazy_prefix_accepts".into(), 100), ("accepts_with_errors".into(), 10)],
             min_evaluations: 10_000,
         },
     )
